@@ -594,6 +594,17 @@ def run_check(chk, tier, replay=None):
             c = cases[0][0]
             samples.append(dict(case=c, model=mobs[0][:400], impl=iobs[0][:400]))
 
+        # 4a. optionally judge EVERY implementation observation by the property oracle (not only the differing ones):
+        #     where model and code agree but the oracle rejects, the case lies outside the theorems' hypotheses
+        #     (a known finding) or the code violates the property in a way the model shares
+        if getattr(chk, "oracle_all", False) and lines:
+            diffset = set(c for c, _, _ in diffs)
+            verd_all, _ = run_sharded(model, ["%s\t%s" % (c, chk.normalize(c, io)) for (c, _), io in zip(cases, iobs)],
+                                      args=tuple(getattr(chk, "oracle_args", ("oracle",))), shards=NPROC)
+            ctx["oracle_all_evaluated"] = len(verd_all)
+            for (c, _), mo, io, v in zip(cases, mobs, iobs, verd_all):
+                if v != "1" and c not in diffset:
+                    diffs.append((c, chk.normalize(c, mo), chk.normalize(c, io)))
         # 4. judge the differences
         if diffs:
             oracle_in = ["%s\t%s" % (c, io) for c, _, io in diffs]
@@ -650,7 +661,7 @@ def run_check(chk, tier, replay=None):
         print_assumptions=coqres["assumptions"],
         evaluations=evaluations, distinct_nontrivial=len(nontriv), distinct_signatures=len(sigs),
         rule=chk.rule, samples=samples, input_distribution=cats, observation_kinds=obs_kinds,
-        correspondence_differences=len(diffs), crash_notes=[dict(case=n[0][:200], kind=n[1]) for n in notes[:5]],
+        correspondence_differences=len(diffs), oracle_evaluated_on_all_cases=ctx.get("oracle_all_evaluated", 0), crash_notes=[dict(case=n[0][:200], kind=n[1]) for n in notes[:5]],
         repo_tree_hash=repo_hash(), make_s=coqres.get("make_s"), model_s=ctx.get("t_model"), impl_s=ctx.get("t_impl"),
         exhaustive=False,
     )
